@@ -198,6 +198,10 @@ theorem inv_step {n : Nat} {s : St} (op : Op) (h : Inv n s) : Inv n (step n s op
     simp only [step]; split
     · exact inv_same_live (own_poke _ v h.own) (fun x => isLive_poke s _ v x) h
     · exact h
+  | pokeRef a v =>
+    simp only [step]; split
+    · rw [pokeRef_fst]; exact inv_same_live (own_poke _ v h.own) (fun x => isLive_poke s _ v x) h
+    · exact h
   | castVal a t f =>
     simp only [step]; split
     · exact inv_same_live (own_castValue _ t f h.own) (fun x => isLive_castValue s _ t f x) h
